@@ -1,45 +1,117 @@
 /* C36: threads that Python did not create.  Each slot owns one pthread parked on a
- * semaphore; the driver (Python main thread) issues one command at a time. */
+ * semaphore; the driver (Python main thread) issues one command at a time.
+ *
+ * A command either runs to completion (ft_call / ft_callk / ft_exit) or is split in two
+ * halves (ft_enter ... ft_leave): the Python body of the callback calls ft_park(i), a plain C
+ * function (so cffi releases the GIL around it), which tells the driver "I am inside" and
+ * blocks on a second semaphore until ft_leave(i).  Still one driver-issued command at a time.
+ *
+ * The callback of a slot can be entered through two function pointers (fn[0]: a libffi
+ * closure made by ffi.callback, fn[1]: the C stub of an extern "Python" function) and either
+ * bare or wrapped in the C caller's own PyGILState_Ensure()/PyGILState_Release() pair. */
+#include <Python.h>
 #include <pthread.h>
 #include <semaphore.h>
 #include <string.h>
 
 typedef int (*cb_t)(int);
-struct slot { pthread_t t; sem_t go, done; int cmd; int arg; int result; cb_t cb; int alive; };
-static struct slot S[4];
+struct slot { pthread_t t; sem_t go, done, resume; int cmd; int arg; int result; cb_t fn[2];
+              int alive; volatile int parked; };
+#define NSLOT 4
+static struct slot S[NSLOT];
+
+#define CMD_EXIT   0
+#define CMD_CALL   1          /* + 2 * kind + 4 * wrap */
 
 static void *body(void *p)
 {
     struct slot *s = (struct slot *)p;
     for (;;) {
         sem_wait(&s->go);
-        if (s->cmd == 0) {            /* exit */
+        if (s->cmd == CMD_EXIT) {
             sem_post(&s->done);
             return NULL;
         }
-        s->result = s->cb(s->arg);     /* the cffi callback, from a non-Python thread */
+        {
+            cb_t fn = s->fn[(s->cmd >> 1) & 1];
+            if (s->cmd & 4) {
+                /* the C caller owns a CPython-made thread state around the callback */
+                PyGILState_STATE st = PyGILState_Ensure();
+                s->result = fn(s->arg);
+                PyGILState_Release(st);
+            }
+            else
+                s->result = fn(s->arg);     /* the cffi callback, from a non-Python thread */
+        }
         sem_post(&s->done);
     }
 }
 
-int ft_spawn(int i, cb_t cb)
+int ft_spawn2(int i, cb_t cb, cb_t xcb)
 {
     struct slot *s = &S[i];
     if (s->alive) return -1;
     memset(s, 0, sizeof *s);
     sem_init(&s->go, 0, 0);
     sem_init(&s->done, 0, 0);
-    s->cb = cb;
+    sem_init(&s->resume, 0, 0);
+    s->fn[0] = cb;
+    s->fn[1] = xcb;
     s->alive = 1;
     return pthread_create(&s->t, NULL, body, s);
 }
 
-int ft_call(int i, int arg)
+int ft_spawn(int i, cb_t cb)
+{
+    return ft_spawn2(i, cb, cb);
+}
+
+/* run one callback to completion: kind 0 = closure, 1 = extern "Python" stub;
+   wrap 1 = inside the thread's own PyGILState_Ensure/Release */
+int ft_callk(int i, int arg, int kind, int wrap)
 {
     struct slot *s = &S[i];
-    if (!s->alive) return -1;
-    s->cmd = 1; s->arg = arg;
+    if (!s->alive || s->parked) return -1;
+    s->cmd = CMD_CALL + 2 * (kind & 1) + 4 * (wrap & 1); s->arg = arg;
     sem_post(&s->go);
+    sem_wait(&s->done);
+    return s->result;
+}
+
+int ft_call(int i, int arg)
+{
+    return ft_callk(i, arg, 0, 0);
+}
+
+/* first half of a call: returns 1 when the thread is parked inside the callback (ft_park was
+   called by the body), 0 if the callback returned without parking */
+int ft_enter(int i, int arg, int kind, int wrap)
+{
+    struct slot *s = &S[i];
+    if (!s->alive || s->parked) return -1;
+    s->cmd = CMD_CALL + 2 * (kind & 1) + 4 * (wrap & 1); s->arg = arg;
+    sem_post(&s->go);
+    sem_wait(&s->done);
+    return s->parked;
+}
+
+/* called by the Python body of the callback, in thread i, GIL released by cffi */
+int ft_park(int i)
+{
+    struct slot *s = &S[i];
+    s->parked = 1;
+    sem_post(&s->done);
+    sem_wait(&s->resume);
+    s->parked = 0;
+    return 0;
+}
+
+/* second half: let the callback return; gives its result */
+int ft_leave(int i)
+{
+    struct slot *s = &S[i];
+    if (!s->alive || !s->parked) return -1;
+    sem_post(&s->resume);
     sem_wait(&s->done);
     return s->result;
 }
@@ -47,11 +119,28 @@ int ft_call(int i, int arg)
 int ft_exit(int i)
 {
     struct slot *s = &S[i];
-    if (!s->alive) return -1;
-    s->cmd = 0;
+    if (!s->alive || s->parked) return -1;
+    s->cmd = CMD_EXIT;
     sem_post(&s->go);
     sem_wait(&s->done);
     pthread_join(s->t, NULL);       /* the thread is completely gone, its TLS destructors have run */
     s->alive = 0;
     return 0;
+}
+
+/* stop everything a previous (possibly abandoned) history left behind */
+int ft_cleanup(void)
+{
+    int i, n = 0;
+    for (i = 0; i < NSLOT; i++) {
+        if (S[i].alive && S[i].parked) { ft_leave(i); n++; }
+        if (S[i].alive) { ft_exit(i); n++; }
+    }
+    return n;
+}
+
+/* in the child of a fork(): the pthreads do not exist any more, forget them */
+void ft_forget(void)
+{
+    memset(S, 0, sizeof S);
 }
